@@ -230,6 +230,9 @@ impl MetadataClient for RecMeta {
     async fn scavenge_leases(&self) -> Result<usize> {
         wrap!(self, "scavenge_leases", String::new(), self.inner.scavenge_leases(), |v: &usize| format!("{}", v))
     }
+    async fn active_split_new_shards(&self) -> Result<Vec<String>> {
+        wrap!(self, "active_split_new_shards", String::new(), self.inner.active_split_new_shards(), |v: &Vec<String>| format!("{:?}", v))
+    }
     async fn has_active_split(&self) -> Result<bool> {
         wrap!(self, "has_active_split", String::new(), self.inner.has_active_split(), |v: &bool| format!("{}", v))
     }
